@@ -83,6 +83,7 @@ pub async fn apply(sim: &mut Sim, action: &Action) {
         Action::ArmLaunchFail { w } => sim.arm_launch_fail(*w),
         Action::ArmSlowStop { w } => sim.arm_slow_stop(*w),
         Action::Partition { w } => sim.partition(*w),
+        Action::HangUp { client } => sim.hang_up(*client),
         Action::AgeWorker { w, secs } => {
             if let Some(h) = sim.workers.get(w) {
                 h.sim.shift_start_time(std::time::Duration::from_secs(*secs));
